@@ -324,6 +324,10 @@ func (vt *Model) cht(ps int) {
 		vt.cursor.col = ts
 		n += 1
 	}
+	if vt.cursor.col > vt.margin.right {
+		// the default tab stops extend beyond a narrow screen
+		vt.cursor.col = vt.margin.right
+	}
 }
 
 // Erase in Display (ED) CSI Ps J
